@@ -1,3 +1,312 @@
 import LocustModel.Proto
-/- Driver stub for C01 (replaced when the property's model is built). -/
-def main : IO Unit := LM.Proto.runDriver fun _ => "?\t?"
+import LocustModel.Codec.Ingest
+import LocustModel.Lemmas.C01Ints
+/-
+  Driver for C01.  Input line:
+    c01 <kind> <i2f> <showf> <ncols> <item> <item> ...
+  kind   `q` (SELECT all columns: rows)  |  `u` (unit level: codec shape of every column of the open buffer)
+  i2f    `[]` | `<int>=<16 hex>,...`      Rust `i as f64` for the ints of the case
+  showf  `[]` | `<16 hex>=x<hex>,...`     Rust `f64::to_string`
+  item   `!` (flush: the open buffer becomes a partition)  |  batch  `B<rows>/<rep>/<rep>...` one rep per column:
+         `-` absent | `E` | `D:<f>,..` | `P:<i>=<f>,..` | `I:<int>,..` | `Q:<i>=<int>,..` | `S:x<hex>,..` | `M:<cell>,..`
+  Output:  <model> TAB <spec> [TAB <known finding id>]
+-/
+namespace LM.DrvC01
+open LM LM.Proto LM.Codec
+
+def hexNat? (s : String) : Option Nat :=
+  s.toList.foldlM (fun acc c => (hexDigit? c).map fun d => acc * 16 + d) 0
+
+def parsePair (f : String → Option α) (g : String → Option β) (s : String) : Option (α × β) :=
+  match s.splitOn "=" with
+  | [a, b] => do let x ← f a; let y ← g b; pure (x, y)
+  | _ => none
+
+def parseElems (f : String → Option α) (s : String) : Option (List α) :=
+  if s = "" then some [] else (s.splitOn ",").mapM f
+
+def parseCell (s : String) : Option RawVal :=
+  if s = "_" then some .null
+  else match s.toList with
+    | 'i' :: r => (String.ofList r).toInt?.map .int
+    | 'f' :: r => (hexNat? (String.ofList r)).map .float
+    | 'x' :: _ => (parseHexBytes? s).map .str
+    | _ => none
+
+def parseRep (s : String) : Option (Option Rep) :=
+  if s = "-" then some none
+  else if s = "E" then some (some .empty)
+  else
+    let body := (s.drop 2).toString
+    if s.startsWith "D:" then (parseElems hexNat? body).map fun l => some (.dense l)
+    else if s.startsWith "P:" then (parseElems (parsePair String.toNat? hexNat?) body).map fun l => some (.sparse l)
+    else if s.startsWith "I:" then (parseElems String.toInt? body).map fun l => some (.i64 l)
+    else if s.startsWith "Q:" then (parseElems (parsePair String.toNat? String.toInt?) body).map fun l => some (.sparseI64 l)
+    else if s.startsWith "S:" then (parseElems parseHexBytes? body).map fun l => some (.str l)
+    else if s.startsWith "M:" then (parseElems parseCell body).map fun l => some (.mixed l)
+    else none
+
+inductive Item where
+  | flush
+  | batch (rows : Nat) (reps : List (Option Rep))
+
+def parseItem (s : String) : Option Item :=
+  if s = "!" then some .flush
+  else match s.toList with
+    | 'B' :: r =>
+      match (String.ofList r).splitOn "/" with
+      | n :: reps => do
+          let rows ← n.toNat?
+          let rs ← reps.mapM parseRep
+          pure (.batch rows rs)
+      | _ => none
+    | _ => none
+
+def showHex16 (n : Nat) : String :=
+  String.ofList ((List.range 16).reverse.map fun k => hexChar ((n >>> (4 * k)) % 16))
+
+def showCell : Cell → String
+  | .null => "_"
+  | .int i => "i" ++ toString i
+  | .float b => "f" ++ showHex16 b
+  | .str s => showHexBytes s
+
+def showRows (cols : List (List Cell)) : String :=
+  match cols with
+  | [] => "[]"
+  | c :: _ =>
+    if c.isEmpty then "[]"
+    else ";".intercalate ((List.range c.length).map fun i =>
+      ",".intercalate (cols.map fun col => showCell (col.getD i .null)))
+
+def colName (i : Nat) : String := "c" ++ toString i
+
+def showEnc : Enc → String
+  | .w w => w.name
+  | .i64 => "i64"
+
+def showOp : CodecOp → String
+  | .nullable => "Nullable"
+  | .add t x => "Add(" ++ t.name ++ "," ++ toString x ++ ")"
+  | .delta t => "Delta(" ++ showEnc t ++ ")"
+  | .toI64 t => "ToI64(" ++ t.name ++ ")"
+  | .push i => "Data(" ++ toString i ++ ")"
+  | .dict t => "Dict(" ++ t.name ++ ")"
+  | .decomp => "Decomp"
+  | .unpack => "StrUnpack"
+  | .unhex u n => "StrHexUnpack(" ++ toString u ++ "," ++ toString n ++ ")"
+
+def showSec : Section → String
+  | .nat w _ => w.name
+  | .i64 _ => "i64"
+  | .f64 _ => "f64"
+  | .null _ => "null"
+  | .bitvec _ => "bitvec"
+  | .comp _ _ => "comp"
+
+def showShape (c : Column) : String :=
+  "n" ++ toString c.len ++ ":" ++ (if c.ops.isEmpty then "id" else "+".intercalate (c.ops.map showOp)) ++ ":" ++
+    ",".intercalate (c.sections.map showSec)
+
+/-- no compression in the executable model (the choice is free and `dec ∘ enc = id` is assumed). -/
+def idComp : Compressor := { enc := id, dec := id }
+
+/-- open known findings: decidable classifiers on the column buffer about to be finalized. -/
+def classify (cv : Conv) (cb : ColBuf) : Option String :=
+  match cb.buffer with
+  | .int b =>
+    if b.deltaEncode ∧ ¬ DeltaOk b.data then some "F-C01-delta-overflow"
+    else if ¬ b.deltaEncode ∧ IntervalBad b.data then some "F-C01-interval-overflow"
+    else none
+  | .mixed d => if RawVal.null ∈ d then some "F-C01-mixed-nulls" else none
+  | _ => let _ := cv; none
+
+structure Out where
+  cols : List (List Cell)       -- per column, accumulated over partitions
+  fault : Option Fault := none
+  known : Option String := none
+  shapes : List String := []
+
+def finishSegment (cv : Conv) (ncols : Nat) (b : Buffer) (o : Out) : Out :=
+  if b.length = 0 then o else
+  (List.range ncols).foldl (fun o i =>
+    let name := colName i
+    let known := match b.cols.find? (·.1 = name) with
+      | some (_, cb) => classify cv cb
+      | none => none
+    let shape := match b.cols.find? (·.1 = name) with
+      | some (_, cb) => match cb.finalize cv with
+          | .ok c => showShape c
+          | .error e => "fault:" ++ toString e
+      | none => "absent"
+    match b.columnCells cv idComp false name with
+    | .ok cells =>
+      { o with cols := o.cols.mapIdx (fun j c => if j = i then c ++ cells else c), shapes := o.shapes ++ [shape],
+               known := o.known.orElse fun _ => known }
+    | .error e => { o with fault := o.fault.orElse (fun _ => some e), shapes := o.shapes ++ [shape],
+                           known := o.known.orElse fun _ => known }) o
+
+def runItems (cv : Conv) (ncols : Nat) : List Item → Buffer → Out → Out
+  | [], b, o => finishSegment cv ncols b o
+  | .flush :: rest, b, o => runItems cv ncols rest {} (finishSegment cv ncols b o)
+  | .batch rows reps :: rest, b, o =>
+    let cols : Except Fault (List (String × InputColumn)) :=
+      (reps.zipIdx.filterMap fun (r, i) => r.map fun rep => (colName i, rep)).mapM fun (n, rep) =>
+        (fromColumnData rep rows).map fun ic => (n, ic)
+    match cols >>= b.pushTypedCols cv with
+    | .ok b' => runItems cv ncols rest b' o
+    | .error e => { o with fault := some e }
+
+/-- specification: per column, the cells supplied, batch by batch (absent ⇒ NULL for every row of the batch). -/
+def repCells (rows : Nat) : Option Rep → List Op
+  | none | some .empty => [.nulls rows]
+  | some (.dense d) => [.floats (d.take rows), .nulls (rows - d.length)]
+  | some (.i64 d) => [.ints (d.take rows), .nulls (rows - d.length)]
+  | some (.str d) => [.strs d]
+  | some (.mixed d) => d.map fun
+      | .int i => .ints [i] | .float f => .floats [f] | .str s => .strs [s] | .null => .nulls 1
+  | some (.sparse d) => sparseOps (fun f => Op.floats [f]) rows 0 d
+  | some (.sparseI64 d) => sparseOps (fun i => Op.ints [i]) rows 0 d
+where
+  sparseOps {α : Type} (mk : α → Op) (rows : Nat) (next : Nat) : List (Nat × α) → List Op
+    | [] => [.nulls (rows - next)]
+    | (i, v) :: rest => .nulls (i - next) :: mk v :: sparseOps mk rows (i + 1) rest
+
+/-- per open-buffer segment (a flush turns the buffer into a partition; type degradation is a property of one
+    column buffer, later partitions are typed on their own). -/
+def specSegments (items : List Item) (col : Nat) : List (List Op) :=
+  let rec go (cur : List Op) : List Item → List (List Op)
+    | [] => [cur]
+    | .flush :: rest => cur :: go [] rest
+    | .batch rows reps :: rest => go (cur ++ repCells rows (reps.getD col none)) rest
+  go [] items
+
+def specCells (cv : Conv) (items : List Item) (col : Nat) : List Cell :=
+  (specSegments items col).flatMap (specColumn cv)
+
+/-! CSV: `RawCol::{push, finalize}` of csv_loader.rs — type inference per chunk of `partition_size` rows.
+    `str::parse::<i64>` / `parse::<f64>` (Rust std) arrive as per-cell hints. -/
+inductive CsvHint where
+  | empty
+  | int (i : Int) (asFloat : Nat)
+  | float (bits : Nat)
+  | str
+  deriving Repr, DecidableEq
+
+structure CsvCell where
+  text : Bytes
+  hint : CsvHint
+
+def parseCsvCell (s : String) : Option CsvCell :=
+  match s.splitOn "~" with
+  | [t, "n"] => (parseHexBytes? t).map fun b => ⟨b, .empty⟩
+  | [t, "s"] => (parseHexBytes? t).map fun b => ⟨b, .str⟩
+  | [t, h, extra] => do
+      let b ← parseHexBytes? t
+      match h.toList with
+      | 'i' :: r => do
+          let i ← (String.ofList r).toInt?
+          let f ← hexNat? extra
+          pure ⟨b, .int i f⟩
+      | 'f' :: r => do
+          let f ← hexNat? (String.ofList r)
+          pure ⟨b, .float f⟩
+      | _ => none
+  | _ => none
+
+/-- `RawCol::finalize(name, string = false)` on one chunk. -/
+def csvFinalize (allowNull : Bool) (cells : List CsvCell) : List RawVal :=
+  let hasStr := cells.any fun c => c.hint == .str
+  let hasFloat := cells.any fun c => match c.hint with | .float _ => true | _ => false
+  let hasInt := cells.any fun c => match c.hint with | .int _ _ => true | _ => false
+  if hasStr then
+    cells.map fun c => if allowNull && c.text.isEmpty then .null else .str c.text
+  else if hasFloat then
+    cells.map fun c => match c.hint with
+      | .empty => if allowNull then .null else .float 0
+      | .int _ f => .float f
+      | .float f => .float f
+      | .str => .null
+  else if hasInt then
+    cells.map fun c => match c.hint with
+      | .empty => if allowNull then .null else .int 0
+      | .int i _ => .int i
+      | _ => .null
+  else cells.map fun _ => .null
+
+def chunks {α : Type} (n : Nat) (l : List α) : List (List α) :=
+  if n = 0 then [l] else
+  let rec go (fuel : Nat) (l : List α) : List (List α) :=
+    match fuel, l with
+    | _, [] => []
+    | 0, _ => []
+    | fuel + 1, l => l.take n :: go fuel (l.drop n)
+  go l.length l
+
+/-- `auto_ingest`: one Mixed batch per chunk, `trigger_wal_flush` after it. -/
+def csvItems (psize : Nat) (cols : List (Bool × List CsvCell)) : List Item :=
+  let perCol : List (List (List RawVal)) := cols.map fun (allow, cells) => (chunks psize cells).map (csvFinalize allow)
+  match perCol with
+  | [] => []
+  | c0 :: _ =>
+    (List.range c0.length).flatMap fun k =>
+      let reps := perCol.map fun chunksOfCol => (chunksOfCol[k]?).map Rep.mixed
+      let rows := ((c0[k]?).map List.length).getD 0
+      [Item.batch rows reps, Item.flush]
+
+def parseCsvCol (s : String) : Option (Bool × List CsvCell) :=
+  match s.toList with
+  | 'C' :: a :: ':' :: rest => do
+      let cells ← parseElems parseCsvCell (String.ofList rest)
+      pure (a == '1', cells)
+  | _ => none
+
+def runQuery (cv : Conv) (ncols : Nat) (items : List Item) : String :=
+  let o := runItems cv ncols items {} { cols := List.replicate ncols [] }
+  let known := match o.known with | some k => "\t" ++ k | none => ""
+  let model := match o.fault with
+    | some _ => "panic"
+    | none => "rows:" ++ showRows o.cols
+  let spec := "rows:" ++ showRows ((List.range ncols).map fun c => specCells cv items c)
+  model ++ "\t" ++ spec ++ known
+
+def mkConv (i2f : List (Int × Nat)) (showf : List (Nat × Bytes)) : Conv := {
+  i2f := fun i => ((i2f.find? (·.1 = i)).map (·.2)).getD 0
+  showInt := fun i => (toString i).toUTF8.toList
+  showFloat := fun f => ((showf.find? (·.1 = f)).map (·.2)).getD [] }
+
+def step (line : String) : String :=
+  match splitTokens line with
+  | "c01" :: "csv" :: i2fS :: showfS :: ncolsS :: psizeS :: colsS =>
+    match parseElems (parsePair String.toInt? hexNat?) (if i2fS = "[]" then "" else i2fS),
+          parseElems (parsePair hexNat? parseHexBytes?) (if showfS = "[]" then "" else showfS),
+          ncolsS.toNat?, (psizeS.drop 1).toString.toNat?, colsS.mapM parseCsvCol with
+    | some i2f, some showf, some ncols, some psize, some cols =>
+      runQuery (mkConv i2f showf) ncols (csvItems psize cols)
+    | _, _, _, _, _ => "bad-op\tbad-op"
+  | "c01" :: kind :: i2fS :: showfS :: ncolsS :: itemsS =>
+    match parseElems (parsePair String.toInt? hexNat?) (if i2fS = "[]" then "" else i2fS),
+          parseElems (parsePair hexNat? parseHexBytes?) (if showfS = "[]" then "" else showfS),
+          ncolsS.toNat?, itemsS.mapM parseItem with
+    | some i2f, some showf, some ncols, some items =>
+      let cv : Conv := {
+        i2f := fun i => ((i2f.find? (·.1 = i)).map (·.2)).getD 0
+        showInt := fun i => (toString i).toUTF8.toList
+        showFloat := fun f => ((showf.find? (·.1 = f)).map (·.2)).getD [] }
+      let o := runItems cv ncols items {} { cols := List.replicate ncols [] }
+      let known := match o.known with | some k => "\t" ++ k | none => ""
+      if kind = "u" then
+        (if o.shapes.any (·.startsWith "fault:") then "panic"
+         else "shapes:" ++ ";".intercalate o.shapes) ++ "\tSKIP" ++ known
+      else
+        let model := match o.fault with
+          | some _ => "panic"
+          | none => "rows:" ++ showRows o.cols
+        let spec := "rows:" ++ showRows ((List.range ncols).map fun c => specCells cv items c)
+        model ++ "\t" ++ spec ++ known
+    | _, _, _, _ => "bad-op\tbad-op"
+  | _ => "bad-op\tbad-op"
+
+end LM.DrvC01
+
+def main : IO Unit := LM.Proto.runDriver LM.DrvC01.step
